@@ -609,6 +609,8 @@ static const char* reb_string_for_particle_error(int err){
         return "Cannot pass both (omega, pomega) together.";
     if (err==14)
         return "Can only pass one longitude/anomaly in the set (f, M, E, l, theta, T).";
+    if (err==15)
+        return "Semi-major axis (or orbital period) cannot be zero.";
     return "An unknown error occured during reb_simulation_add_fmt().";
 
 }
@@ -847,6 +849,10 @@ static struct reb_particle reb_particle_from_fmt_errV(struct reb_simulation* r, 
     if (isnan(a)){
         a = cbrt(P*P*r->G *(primary.m + m)/(4.*M_PI*M_PI));
     }
+    if (a==0.){
+        *err = 15; // a or P is zero
+        return reb_particle_nan();
+    }
     if (Npal>0){
         if (isnan(l)) l=0;
         if (isnan(h)) h=0;
@@ -855,6 +861,10 @@ static struct reb_particle reb_particle_from_fmt_errV(struct reb_simulation* r, 
         if (isnan(iy)) iy=0;
         if ((ix*ix + iy*iy) > 4.0){
             *err = 12; // e too high 
+            return reb_particle_nan();
+        }
+        if ((h*h + k*k) >= 1.0){
+            *err = 3; // Pal coordinates describe bound orbits, e = sqrt(h^2+k^2) < 1
             return reb_particle_nan();
         }
         struct reb_particle particle = reb_particle_from_pal(r->G, primary, m, a, l, k, h, ix, iy);
@@ -922,6 +932,10 @@ static struct reb_particle reb_particle_from_fmt_errV(struct reb_simulation* r, 
 #define TINY 1.E-308 		///< Close to smallest representable floating point number, used for orbit calculation
 
 struct reb_particle reb_particle_from_orbit_err(double G, struct reb_particle primary, double m, double a, double e, double inc, double Omega, double omega, double f, int* err){
+    if(a == 0.){
+        *err = 15; 		// Semi-major axis cannot be zero.
+        return reb_particle_nan();
+    }
     if(e == 1.){
         *err = 1; 		// Can't initialize a radial orbit with orbital elements.
         return reb_particle_nan();
